@@ -254,7 +254,6 @@ def run_case(case) -> list[dict]:
     m, b = case["map"], case["bind"]
     base = {"map": m, "bind": b, "au": case["au"]}
     mp = mk_map(m)
-    ad = bind(mp, m, b)
     ep = f"e{case['ep']}"
     values = {txt(x["name"]): to_py(x) for x in case["vals"]}
     ext = bool(case["ext"])
@@ -262,6 +261,7 @@ def run_case(case) -> list[dict]:
                 m=_pub(NOMATCH), e=_pub(NOMATCH), qargs=[], rebuilt=[], rb_exc="")
     lines = [line]
     try:
+        ad = bind(mp, m, b)   # a server name that is no valid IDNA host raises BadHost: recorded like a failed build
         url = ad.build(ep, values, force_external=ext, append_unknown=case["au"])
     except Exception as e:  # noqa: BLE001
         line["exc"] = type(e).__name__
@@ -306,7 +306,10 @@ def run_case(case) -> list[dict]:
             srv = txt(b["server"])
             sub = host[: -len(srv) - 1] if host.endswith("." + srv) else ""
             b2 = dict(b, sub=cps(sub))
-        ad2 = bind(mp, m, b2)
+        try:
+            ad2 = bind(mp, m, b2)
+        except Exception:  # noqa: BLE001  -- the delivered host is not bindable: no neighbours to walk
+            return lines
         for p in mutate_paths(rng, dpath, npaths):
             ln = dict(map=m, bind=b2, op="conv", path=cps(p), m=_pub(NOMATCH), rebuilt=[], rb_exc="", under=False, d2path=[], rm=_pub(NOMATCH))
             lines.append(ln)
